@@ -638,6 +638,7 @@ static RETCODE adfFileSeekExt_ ( struct AdfFile * const file,
         file->curDataPtr = file->fileHdr->dataBlocks [
             MAX_DATABLK - 1 - file->nDataBlock ];
     } else {
+        BOOL newExtBuffer = FALSE;
         if ( ! file->currentExt ) {
             file->currentExt = ( struct bFileExtBlock * )
                 malloc ( sizeof ( struct bFileExtBlock ) );
@@ -646,11 +647,17 @@ static RETCODE adfFileSeekExt_ ( struct AdfFile * const file,
                 file->curDataPtr = 0;  // invalidate data ptr
                 return RC_MALLOC;
             }
+            newExtBuffer = TRUE;
         }
 
         if ( adfFileReadExtBlockN ( file, extBlock, file->currentExt ) != RC_OK )  {
             adfEnv.eFct ( "adfFileSeekExt: error reading ext block 0x%x(%d), file '%s'",
                           extBlock, extBlock, file->fileHdr->fileName );
+            if ( newExtBuffer ) {
+                /* nothing that a later flush may write back has been loaded */
+                free ( file->currentExt );
+                file->currentExt = NULL;
+            }
             file->curDataPtr = 0;  // invalidate data ptr
             return RC_ERROR;
         }
@@ -1004,6 +1011,7 @@ RETCODE adfFileReadNextBlock ( struct AdfFile * const file )
         else {
             if (file->nDataBlock==MAX_DATABLK) {
 
+                BOOL newExtBuffer = FALSE;
                 if ( file->currentExt == NULL ) {
                     file->currentExt = (struct bFileExtBlock *)
                         malloc ( sizeof(struct bFileExtBlock) );
@@ -1011,6 +1019,7 @@ RETCODE adfFileReadNextBlock ( struct AdfFile * const file )
                         adfEnv.eFct ("adfReadNextFileBlock : malloc");
                         return RC_MALLOC;
                     }
+                    newExtBuffer = TRUE;
                 }
 
                 rc = adfReadFileExtBlock ( file->volume,
@@ -1019,6 +1028,11 @@ RETCODE adfFileReadNextBlock ( struct AdfFile * const file )
                 if ( rc != RC_OK ) {
                     adfEnv.eFct ( "adfReadNextFileBlock : error reading ext block %d",
                                   file->fileHdr->extension );
+                    if ( newExtBuffer ) {
+                        /* nothing that a later flush may write back has been loaded */
+                        free ( file->currentExt );
+                        file->currentExt = NULL;
+                    }
                     return rc;
                 }
 
@@ -1215,14 +1229,22 @@ RETCODE adfFileCreateNextBlock ( struct AdfFile * const file )
                  file->posInExtBlk != used ||
                  file->currentExt->highSeq != (int32_t) used )
             {
+                BOOL newExtBuffer = FALSE;
                 if ( file->currentExt == NULL ) {
                     file->currentExt = (struct bFileExtBlock*) malloc ( sizeof(struct bFileExtBlock) );
                     if ( file->currentExt == NULL )
                         return RC_MALLOC;
+                    newExtBuffer = TRUE;
                 }
                 RETCODE rc = adfFileReadExtBlockN ( file, (int32_t) extIdx, file->currentExt );
-                if ( rc != RC_OK )
+                if ( rc != RC_OK ) {
+                    if ( newExtBuffer ) {
+                        /* nothing that a later flush may write back has been loaded */
+                        free ( file->currentExt );
+                        file->currentExt = NULL;
+                    }
                     return rc;
+                }
                 file->posInExtBlk = used;
             }
         }
